@@ -13,14 +13,14 @@ MC_PROPS = ["INVARIANT TypeOK", "INVARIANT Readable", "PROPERTY FrameOK", "PROPE
             "PROPERTY ReadsMemory"]
 
 
-def mc_cfg(path, t1, t2, budget, depth, rich, emit=False):
+def mc_cfg(path, t1, t2, budget, depth, rich, emit=False, many=False):
     lines = []
     if emit:
         lines += ["INIT Init", "NEXT EmitNext", "CONSTRAINT EmitMem", "VIEW MemView"]
     else:
         lines += ["SPECIFICATION Spec", "VIEW MemDepth"] + MC_PROPS
     lines += ["CHECK_DEADLOCK FALSE", "CONSTANTS", ' T1 = "%s"' % t1, ' T2 = "%s"' % t2, " Budget = %d" % budget,
-              " Depth = %d" % depth, " Rich = %s" % ("TRUE" if rich else "FALSE"), " Cfg <- MCfg", " Reqs <- MReqs",
+              " Depth = %d" % depth, " Rich = %s" % ("TRUE" if rich else "FALSE"), " Many = %s" % ("TRUE" if many else "FALSE"), " Cfg <- MCfg", " Reqs <- MReqs",
               ' InitVals = "zero"', " MaxDepth <- Depth"]
     tlc.write_cfg(path, lines)
 
@@ -32,10 +32,10 @@ class Catalogue(object):
         self.mems = []      # [{"mem":..., "depth":...}]
 
 
-def run_model(ctx, wd, t1, t2, budget, depth, rich, name):
+def run_model(ctx, wd, t1, t2, budget, depth, rich, name, many=False):
     """M: exhaustive TLC run of Logix on this configuration (properties on the spec)."""
     cfgp = os.path.join(wd, "mc_%s.cfg" % name)
-    mc_cfg(cfgp, t1, t2, budget, depth, rich)
+    mc_cfg(cfgp, t1, t2, budget, depth, rich, many=many)
     res = tlc.run("MC_Logix", cfgp, spec_dir=wd, timeout=1500)
     ctx.ev.tlc("model:" + name, res)
     if res.violated:
@@ -43,10 +43,10 @@ def run_model(ctx, wd, t1, t2, budget, depth, rich, name):
     return res
 
 
-def run_emit(ctx, wd, t1, t2, budget, depth, rich, name):
+def run_emit(ctx, wd, t1, t2, budget, depth, rich, name, many=False):
     """Emission: request catalogue (with the spec's encoding) and every memory reachable by <= depth writes."""
     cfgp = os.path.join(wd, "emit_%s.cfg" % name)
-    mc_cfg(cfgp, t1, t2, budget, depth, rich, emit=True)
+    mc_cfg(cfgp, t1, t2, budget, depth, rich, emit=True, many=many)
     res = tlc.run("MC_Logix", cfgp, spec_dir=wd, timeout=1500)
     ctx.ev.tlc("emit:" + name, res)
     cat = Catalogue()
@@ -94,6 +94,23 @@ def exec_history(job):
         rpy = dev.cip(q["b"])
         evs.append({"r": q["r"], "b": q["b"], "rpy": rpy, "mem": dev.get_mem()})
     return {"cfg": cfg, "fan": False, "from": mem, "ev": evs, "xfer": {"on": False}}
+
+
+def exec_bundles(job):
+    """job = (cfg, mem, [bundle emission records]) -> fan trace: each bundle on a device set to `mem`, and its members
+    one by one on the device set to `mem` again (replies and final memory recorded for the three-way comparison)."""
+    from . import sim
+    cfg, mem, bundles = job
+    dev = sim.Device(cfg)
+    evs = []
+    for q in bundles:
+        dev.set_mem(mem)
+        singles = [dev.cip(mb) for mb in q["mb"]]
+        smem = dev.get_mem()
+        dev.set_mem(mem)
+        rpy = dev.cip(q["b"])
+        evs.append({"r": q["r"], "b": q["b"], "rpy": rpy, "mem": dev.get_mem(), "singles": singles, "smem": smem})
+    return {"cfg": cfg, "fan": True, "from": mem, "ev": evs, "xfer": {"on": False}}
 
 
 def exec_xfer(job):
@@ -178,7 +195,8 @@ def report(ctx, bad, label):
         r = e["r"]
         tg = ln["cfg"]["tags"][r["tag"] - 1] if r.get("tag") else None
         key = (r["svc"], why, r.get("typ") if r["svc"] in ("write", "writef") else "-", tg["type"] if tg else "-",
-               "beyond" if tg and max(r["idx"], 0) + r["n"] > tg["len"] else "inside", "st=%s" % (e["rpy"][2] if len(e["rpy"]) > 2 else "exc"))
+               "beyond" if tg and max(r["idx"], 0) + r["n"] > tg["len"] else "inside", "st=%s" % (e["rpy"][2] if len(e["rpy"]) > 2 else "exc"),
+               "members=" + ",".join(m["svc"] for m in r["ms"]))
         classes[key] = classes.get(key, 0) + 1
     for k in sorted(classes):
         print("  rejected-class %s x%d" % (" ".join(map(str, k)), classes[k]))
